@@ -62,6 +62,19 @@ def run(ck: Check, prog: Program) -> None:
                     ck.finding('SPEC-CODES', ci.qualname, 'message not a string', ci.module.rel, ci.node.lineno,
                                f'{name}.message must be a string (error objects carry a string message)')
                 break
+    # VERBATIM-CTOR: the error object keeps exactly the code / message it was built with (0 and "" included)
+    from ..absint import Interp as _I
+    from .sentinel import sent_truth
+    ctor = prog.func(EXC + '.JsonRpcError.__init__')
+    ck.functions.add(ctor.qualname)
+    flagged, n_c = sent_truth(prog, _I(prog), ctor, scalar_rule=True)
+    ck.ob('VERBATIM-CTOR', 'JsonRpcError.__init__ keeps the given code and message (no truthiness on protocol scalars)', not flagged,
+          sample={'conditions': n_c})
+    for s_, why, kinds in flagged:
+        from ..model import norm as _n
+        ck.finding('VERBATIM-CTOR', ctor.qualname, f'truthiness of {_n(s_.expr)} in {s_.context}', ctor.module.rel, s_.node.line,
+                   f'`{_n(s_.node.ast)[:100]}`: {why}. A protocol error raised by a method with code 0 or message "" does not reach the '
+                   f'caller with exactly its code and message')
     # DATA-IFF-SET
     f = prog.func(EXC + '.JsonRpcError.to_json')
     ck.functions.add(f.qualname)
